@@ -290,3 +290,8 @@ impl Raw4Socket {
         nix::sys::socket::setsockopt(&fd, opt, val).map_err(|e| e.into())
     }
 }
+
+#[cfg(feature = "isomer_erbium_verif")]
+mod isomer_erbium_verif {
+    include!(concat!(env!("ISOMER_ERBIUM_VERIF_DIR"), "/net_raw.rs"));
+}
